@@ -126,43 +126,8 @@ theorem C10_pipeline_seq_uninterrupted (h : Refines R Inv rem) (f : α → List 
       Ev.delivered r.trace = (rem it).flatMap f ∧
       Ev.delivered r.trace = Ev.delivered u.trace ∧ r.p.agg = u.p.agg ∧
       m.result r.p.agg = m.result u.p.agg := by
-  have key : ∀ ops' : List Op, ∃ r,
-      PipeRun.run R (rowPipe f m batchOf) (rowViewOf f) (PipeRun.init R (rowPipe f m batchOf) it)
-        (ops' ++ [.take k]) = .ok r ∧
-      Ev.delivered r.trace = (rem it).flatMap f ∧
-      r.p.agg = aggOf (rowPipe f m batchOf) ((rem it).flatMap f) m.empty := by
-    intro ops'
-    have hc := rowPipe_conserves f m batchOf
-    obtain ⟨r0, h0, g0⟩ := (PipeRun.Good.init h (rowPipe f m batchOf) (rowViewOf f) hc it hi).run h _ _ hc ops'
-    have hw : RowWise1 (rowPipe f m batchOf).tr := ⟨fun _ a => hf a, fun _ => rfl⟩
-    have c0 := (PipeRun.Clean.init (ρ := β) (rowPipe f m batchOf) it).run _ (rowViewOf f) hw (fun _ => rfl) ops' h0
-    obtain ⟨t1, t2, t3, t4⟩ := pipeTakeN_spec h (rowPipe f m batchOf) (rowViewOf f) hc k r0.p g0.inv
-    have hrows : ∀ bs : List β, bs.flatMap (rowViewOf f).rows = bs := flatMap_singleton
-    have hcur : Ev.delivered r0.trace ++ PipeIt.futRows rem (rowViewOf f) r0.p = (rem it).flatMap f := by
-      have := g0.cur
-      rw [c0.trace, Ev.allRows_dlv, hrows] at this
-      exact this
-    rw [hrows] at t2
-    -- the final take drains
-    have hlen : (pipeTakeN R (rowPipe f m batchOf) k r0.p).1.length < k := by
-      have e1 := congrArg List.length t2
-      have e2 := congrArg List.length hcur
-      simp only [List.length_append] at e1 e2
-      omega
-    have hnil := t4 hlen
-    rw [hnil, List.append_nil] at t2
-    refine ⟨{ r0 with p := (pipeTakeN R (rowPipe f m batchOf) k r0.p).2,
-                      trace := r0.trace ++ (pipeTakeN R (rowPipe f m batchOf) k r0.p).1.map Ev.dlv,
-                      log := r0.log ++ [(pipeTakeN R (rowPipe f m batchOf) k r0.p).1] }, ?_, ?_, ?_⟩
-    · simp only [PipeRun.run, List.foldlM_append, List.foldlM_cons, List.foldlM_nil] at h0 ⊢
-      rw [h0]; rfl
-    · show Ev.delivered (r0.trace ++ (pipeTakeN R (rowPipe f m batchOf) k r0.p).1.map Ev.dlv) = _
-      rw [Ev.delivered_append, Ev.delivered_dlv, t2, hcur]
-    · show (pipeTakeN R (rowPipe f m batchOf) k r0.p).2.agg = _
-      rw [t3, g0.agg, ← hcur, t2]
-      simp [aggOf, List.foldl_append, rowPipe]
-  obtain ⟨r, h1, h2, h3⟩ := key ops
-  obtain ⟨u, u1, u2, u3⟩ := key []
+  obtain ⟨r, h1, h2, h3, _⟩ := PipeRun.drained h f hf m batchOf it hi ops k hk
+  obtain ⟨u, u1, u2, u3, _⟩ := PipeRun.drained h f hf m batchOf it hi [] k hk
   exact ⟨r, u, h1, by simpa using u1, h2, by rw [h2, u2], by rw [h3, u3], by rw [h3, u3]⟩
 
 /-- With a lawful aggregate (`Lemmas/AggCore.lean`, the C01 laws) the final result of any
@@ -183,6 +148,44 @@ theorem C10_pipeline_seq_onebatch (h : Refines R Inv rem) (f : α → List β)
   refine ⟨r, h1, ?_⟩
   rw [h4, h3]
   exact hl.result_congr (hl.feed_eq _)
+
+/-- **Chains of runners** (several named transforms, `TreeTransform.chain`): the downstream
+runner's data source is the upstream runner's iterator, a checkpoint of the chain nests the upstream
+`_IteratorState` in the downstream one, and a restore rebuilds the upstream iterator as the data
+source of the downstream one (`Model/Resume.lean: pipeRec`).  For every history of the chained
+iterator that ends drained: the delivered outputs equal the uninterrupted run's, and so do the
+aggregates of **both** runners — the upstream aggregate is the aggregate of all upstream outputs.
+(By `pipeRec_refines` the same holds for chains of any length.) -/
+theorem C10_pipeline_chain {γ X₂ S₂ Res₂ : Type} (h : Refines R Inv rem) (f : α → List β)
+    (hf : ∀ a, (f a).length ≤ 1) (g : β → List γ) (hg : ∀ b, (g b).length ≤ 1)
+    (m : Agg.Mergeable X S Res) (batchOf : β → List X)
+    (m₂ : Agg.Mergeable X₂ S₂ Res₂) (batchOf₂ : γ → List X₂) (it : R.It) (hi : Inv it)
+    (ops : List Op) (k : Nat) (hk : (((rem it).flatMap f).flatMap g).length < k) :
+    let Ra := pipeRec R (rowPipe f m batchOf)
+    let start := PipeRun.init (ρ := γ) Ra (rowPipe g m₂ batchOf₂) (PipeIt.fresh R (rowPipe f m batchOf) it m.empty)
+    ∃ r u,
+      PipeRun.run Ra (rowPipe g m₂ batchOf₂) (rowViewOf g) start (ops ++ [.take k]) = .ok r ∧
+      PipeRun.run Ra (rowPipe g m₂ batchOf₂) (rowViewOf g) start [.take k] = .ok u ∧
+      Ev.delivered r.trace = ((rem it).flatMap f).flatMap g ∧
+      Ev.delivered r.trace = Ev.delivered u.trace ∧
+      r.p.agg = u.p.agg ∧
+      r.p.src.agg = aggOf (rowPipe f m batchOf) ((rem it).flatMap f) m.empty ∧
+      r.p.src.agg = u.p.src.agg := by
+  intro Ra start
+  have h' := pipeRec_refines h f hf m batchOf ((rem it).flatMap f)
+  have hi' := PipeIt.SrcInv.fresh (Inv := Inv) (rem := rem) f m batchOf it hi
+  have up : ∀ p : PipeIt Ra γ Unit S₂,
+      PipeIt.PInv (PipeIt.SrcInv Inv rem f m batchOf ((rem it).flatMap f)) (fun q : PipeIt R β Unit S => (rem q.src).flatMap f) p →
+      p.done = true → p.src.agg = aggOf (rowPipe f m batchOf) ((rem it).flatMap f) m.empty := by
+    intro p hp hd
+    obtain ⟨⟨_, _, D, hD, ha⟩, hrem⟩ := hp
+    have := hrem hd
+    rw [this, List.append_nil] at hD
+    rw [ha, hD]
+  obtain ⟨r, h1, h2, h3, h4, h5⟩ := PipeRun.drained h' g hg m₂ batchOf₂ _ hi' ops k hk
+  obtain ⟨u, u1, u2, u3, u4, u5⟩ := PipeRun.drained h' g hg m₂ batchOf₂ _ hi' [] k hk
+  refine ⟨r, u, h1, by simpa using u1, h2, by rw [h2, u2], by rw [h3, u3], up r.p h4 h5, ?_⟩
+  rw [up r.p h4 h5, up u.p u4 u5]
 
 /-! ## Chains that buffer (re-batching): the exact loss (finding F16)
 
